@@ -2,6 +2,7 @@ import Drv.Pure
 import Drv.Stat
 import Drv.Walk
 import Drv.Sync
+import Drv.Proto
 open Lean Drv
 
 /-- which repairs (`fix:` commits) the model follows; the driver always runs the repaired model,
@@ -15,6 +16,7 @@ def handle (j : Json) : Except String Json := do
   | "diff" => hDiff j
   | "walk" => hWalk j
   | "sync" => hSync j
+  | "sendproto" => hSendProto j
   | _ => throw s!"bad-op {op}"
 
 partial def loop (h : IO.FS.Stream) (out : IO.FS.Stream) : IO Unit := do
